@@ -1,5 +1,6 @@
 """C12 - A screen prints exactly its content then its prompt; paging loses nothing."""
 from harness.props.common import *
+from harness.props import objects
 from harness.gen.trees import gen_tree, gen_text
 from harness.props import session as _s
 
@@ -25,8 +26,9 @@ def generate(rnd, tier):
     for _ in range(3000 if tier == "quick" else 30000):
         ops = []
         for _ in range(rnd.randint(0, 7)):
-            k = rnd.choice(["set", "set", "set", "remove", "message"])
-            if k == "set": ops.append(["set", rnd.choice(["a", "b", "c", "r", "q", "h", "10", "2", "B", "é", "", "ab"]), rnd.choice(["to go", "to quit", "x", ""]), rnd.random() < 0.5])
+            k = rnd.choice(["set", "set", "set", "remove", "message", "std"])
+            if k == "std": ops.append(["std", rnd.choice(["refresh", "continue", "quit", "help"]), rnd.choice([None, None, "to go back", ""])])
+            elif k == "set": ops.append(["set", rnd.choice(["a", "b", "c", "r", "q", "h", "10", "2", "B", "é", "", "ab"]), rnd.choice(["to go", "to quit", "x", ""]), rnd.random() < 0.5])
             elif k == "remove": ops.append(["remove", rnd.choice(["a", "b", "c", "r", "q", "zz"])])
             else: ops.append(["message", rnd.choice([None, "", "Pick one", "a long message that wraps around the width"])])
         cases.append(with_cc({"op": "prompt", "message": rnd.choice([None, "", "Please make a selection from the above"]), "ops": ops, "w": rnd.choice([80, 40, 20, 10, 5, 1])}))
@@ -60,7 +62,8 @@ def generate(rnd, tier):
         cases.append(_s.with_cc(dict(op="machine", mode="paging", width=rnd.choice([80, 40, 12]), screens=screens, handlers=handlers, init=init,
                                     stdin=[rnd.choice(["", "", "", "r", "x", "c"]) for _ in range(rnd.randint(2, 30))], quit_cb=None, quit_screen=None,
                                     exc_handler=False, run_empty=False, deliver_at=[])))
-    return cases
+    # the library's own dialogs as views (Model/DialogViews.lean, Props/C12b.lean): window lines after refresh() at every width, prompt
+    return cases + objects.gen_dialogview(rnd, 1500 if tier == "quick" else 15000)
 
 
 def run_impl(case):
@@ -142,8 +145,10 @@ def monitor(case, obs):
         return None
     if case["op"] == "prompt":
         d = {}; msg = case["message"]
+        STD = {"refresh": ("r", "to refresh"), "continue": ("c", "to continue"), "quit": ("q", "to quit"), "help": ("h", "to help")}
         for op in case["ops"]:
             if op[0] == "set": d[op[1]] = op[2]
+            elif op[0] == "std": d[STD[op[1]][0]] = STD[op[1]][1] if op[2] is None else op[2]
             elif op[0] == "remove": d.pop(op[1], None)
             else: msg = op[1]
         if not msg and not d: exp = ""
@@ -174,3 +179,7 @@ def nontrivial(case, obs):
 
 
 def outcome(case, obs): return case["op"] if case["op"] != "machine" else "session/" + obs["outcome"][0]
+
+
+LEAN_MODULES = ["C12", "C12b"]
+objects.install(globals(), ("dialogview",))
